@@ -194,12 +194,14 @@ type Fabric struct {
 	Nodes   []*Node
 	sees    map[[2]int]bool   // [x,y]: x sees y's announcements
 	Proxies map[[2]int]*Proxy // [x,y]: the port x dials to reach y
-	seq     atomic.Int64
-	start   time.Time
+	// Delivered[x,y]: usable addresses of y reported to x since y was last removed at x (what x's manager must know)
+	Delivered map[[2]int][]string
+	seq       atomic.Int64
+	start     time.Time
 }
 
 func NewFabric() *Fabric {
-	return &Fabric{sees: map[[2]int]bool{}, Proxies: map[[2]int]*Proxy{}, start: time.Now()}
+	return &Fabric{sees: map[[2]int]bool{}, Proxies: map[[2]int]*Proxy{}, Delivered: map[[2]int][]string{}, start: time.Now()}
 }
 
 func txtElements(txt []string) map[string]string {
@@ -229,7 +231,35 @@ func (f *Fabric) deliver(x, y int, ann *annData, remove bool) {
 		addrs = []net.IP{net.ParseIP("::1"), net.ParseIP("127.0.0.1")}
 	}
 	// the entry x learns about y points at the proxy x->y
+	f.noteDelivered(x, y, addrs, remove)
 	cb(txtElements(ann.txt), ann.name, "", addrs, px.Port, remove)
+}
+
+func (f *Fabric) noteDelivered(x, y int, addrs []net.IP, remove bool) {
+	f.mu.Lock()
+	defer f.mu.Unlock()
+	k := [2]int{x, y}
+	if remove {
+		delete(f.Delivered, k)
+		return
+	}
+	for _, a := range addrs {
+		if a.To4() == nil && a.IsLinkLocalUnicast() {
+			continue
+		}
+		dup := false
+		for _, have := range f.Delivered[k] {
+			if have == a.String() {
+				dup = true
+			}
+		}
+		if !dup {
+			f.Delivered[k] = append(f.Delivered[k], a.String())
+		}
+	}
+	if _, ok := f.Delivered[k]; !ok {
+		f.Delivered[k] = []string{}
+	}
 }
 
 // Readdr: a further record for y (another address) reaches x, as avahi reports one record per address.
@@ -248,8 +278,9 @@ func (f *Fabric) Readdr(x, y, n int) {
 	if cb == nil || down || px == nil || ann == nil || !sees {
 		return
 	}
-	extra := []net.IP{net.ParseIP(fmt.Sprintf("2001:db8::%x", n%200+1)), net.ParseIP(fmt.Sprintf("127.0.1.%d", n%200+1))}
-	cb(txtElements(ann.txt), ann.name, "", extra[n%2:n%2+1], px.Port, false)
+	extra := []net.IP{net.ParseIP(fmt.Sprintf("2001:db8::%x", n%200+1)), net.ParseIP(fmt.Sprintf("127.0.1.%d", n%200+1)), net.ParseIP("fe80::1")}
+	f.noteDelivered(x, y, extra[n%3:n%3+1], false)
+	cb(txtElements(ann.txt), ann.name, "", extra[n%3:n%3+1], px.Port, false)
 }
 
 func (f *Fabric) announced(y int) {
